@@ -371,6 +371,12 @@ func (d *DotGit) NewObjectPack() (*PackWriter, error) {
 	if cleanErr != nil {
 		return nil, cleanErr
 	}
+	// The pack catalog may have been regenerated while the writer was
+	// open; it must not outlive the moment the new pack is in place.
+	pw.saved = func() {
+		d.packMap = nil
+		d.packList = nil
+	}
 	return pw, nil
 }
 
@@ -805,7 +811,14 @@ func (d *DotGit) DeleteOldObjectPackAndIndex(hash plumbing.Hash, t time.Time) er
 func (d *DotGit) NewObject() (*ObjectWriter, error) {
 	d.cleanObjectList()
 
-	return newObjectWriter(d.fs, d.options.ObjectFormat)
+	ow, err := newObjectWriter(d.fs, d.options.ObjectFormat)
+	if err != nil {
+		return nil, err
+	}
+	// The object list may have been regenerated while the writer was
+	// open; it must not outlive the moment the new object is in place.
+	ow.saved = d.cleanObjectList
+	return ow, nil
 }
 
 // ObjectsWithPrefix returns the hashes of objects that have the given prefix.
